@@ -1276,4 +1276,398 @@ theorem kwStep_refines (D : Dims) (hD : DPos D) (T : Tables α) (sec : Section) 
 
 end Handlers
 
+section Programs
+variable {α : Type} [RealOps α]
+
+/-! ## sections, ACTNUM update, whole programs, observation -/
+
+theorem mulInto_compress (A : List Bool) (x m : Arr α) :
+    mulInto (compress A x) (compress A m) = compress A (mulInto x m) := by
+  simp only [mulInto, compress_zipWith]
+
+theorem mulInto_length (x m : Arr α) (hx : x.length = n) (hm : m.length = n) : (mulInto x m).length = n := by
+  simp [mulInto, hx, hm]
+
+theorem applyMult_refines (D : Dims) (s : St α) (hw : WF D s) (e : String × DInfo α) :
+    cSt (applyMult .ref D s e) = applyMult .impl D (cSt s) e ∧ WF D (applyMult .ref D s e) := by
+  unfold applyMult
+  split
+  · rw [cSt_dbls_get]
+    cases hm : sget s.dbls (multName e.1) with
+    | none => exact ⟨rfl, hw⟩
+    | some marr =>
+      have hlm := wfstore_sget hw.dbls hm
+      simp only [Option.map_some]
+      obtain ⟨hw1, hl1⟩ := getD_wf D s e.1 e.2 hw
+      have ha1 := getD_act .ref D s e.1 e.2
+      have hg := getD_impl D s e.1 e.2 hw
+      generalize getD .ref D s e.1 e.2 = p at *
+      rw [hg]
+      simp only []
+      refine ⟨?_, ⟨hw1.act, hw1.ints, wfstore_serase (wfstore_sput hw1.dbls _ _ (mulInto_length _ _ hl1 hlm)) _⟩⟩
+      simp only [cSt, smap_serase, smap_sput, mulInto_compress, ha1]
+  · exact ⟨rfl, hw⟩
+
+theorem foldl_applyMult_refines (D : Dims) (es : List (String × DInfo α)) (s : St α) (hw : WF D s) :
+    cSt (es.foldl (applyMult .ref D) s) = es.foldl (applyMult .impl D) (cSt s) ∧
+    WF D (es.foldl (applyMult .ref D) s) := by
+  induction es generalizing s with
+  | nil => exact ⟨rfl, hw⟩
+  | cons e es ih =>
+    simp only [List.foldl_cons]
+    obtain ⟨h1, h2⟩ := applyMult_refines D s hw e
+    rw [← h1]
+    exact ih _ h2
+
+theorem scanSection_refines (D : Dims) (hD : DPos D) (T : Tables α) (sec : Section) (s : St α)
+    (hw : WF D s) (ks : List (Kw α)) :
+    (scanSection .ref D T sec s ks).map cSt = scanSection .impl D T sec (cSt s) ks ∧
+    ∀ q, scanSection .ref D T sec s ks = some q → WF D q := by
+  unfold scanSection
+  obtain ⟨h1, h2⟩ := foldRecs_refines (kwStep .ref D T sec) (kwStep .impl D T sec) cPair (PairOK D)
+    (fun p k hp => kwStep_refines D hD T sec p hp k) ks (s, Box.global D) ⟨hw, global_valid D hD⟩
+  change _ = foldRecs _ (cSt s, Box.global D) ks at h1
+  rw [← h1]
+  cases hf : foldRecs (kwStep .ref D T sec) (s, Box.global D) ks with
+  | none => simp
+  | some r =>
+    have hwr := (h2 r hf).1
+    simp only [Option.map_some, cPair]
+    by_cases he : sec = .edit
+    · simp only [he, if_true]
+      obtain ⟨m1, m2⟩ := foldl_applyMult_refines D T.dbl r.1 hwr
+      exact ⟨by simp only [applyMultipliers]; rw [m1], fun q hq => by cases hq; exact m2⟩
+    · simp only [he, if_false]
+      exact ⟨trivial, fun q hq => by cases hq; exact hwr⟩
+
+
+theorem andMask_length (A k : List Bool) (hk : k.length = A.length) : (andMask A k).length = A.length := by
+  induction A generalizing k with
+  | nil => simp [andMask]
+  | cons a as ih =>
+    cases k with
+    | nil => simp at hk
+    | cons k0 ks => simp at hk; simp [andMask, ih ks hk]
+
+theorem expand_compress_false (A k : List Bool) (hk : k.length = A.length) :
+    expand false A (compress A k) = andMask A k := by
+  induction A generalizing k with
+  | nil => simp [expand, andMask]
+  | cons a as ih =>
+    cases k with
+    | nil => simp at hk
+    | cons k0 ks =>
+      simp at hk
+      cases a
+      · simp [expand, compress, andMask, ih ks hk]
+      · simp [expand, compress, andMask, ih ks hk]
+
+theorem compress_compress {β : Type} (A k : List Bool) (x : List β) (hk : k.length = A.length) (hx : x.length = A.length) :
+    compress (compress A k) (compress A x) = compress (andMask A k) x := by
+  induction A generalizing k x with
+  | nil => simp [compress, andMask]
+  | cons a as ih =>
+    cases k with
+    | nil => simp at hk
+    | cons k0 ks =>
+      cases x with
+      | nil => simp at hx
+      | cons x0 xs =>
+        simp at hk hx
+        cases a
+        · simp [compress, andMask, ih ks xs hk hx]
+        · cases k0
+          · simp [compress, andMask, ih ks xs hk hx]
+          · simp [compress, andMask, ih ks xs hk hx]
+
+theorem porvData_compress (A : List Bool) (poro : Arr α) (ntg mpv : Option (Arr α)) :
+    porvData (compress A poro) (ntg.map (compress A)) (mpv.map (compress A)) = compress A (porvData poro ntg mpv) := by
+  unfold porvData
+  cases ntg <;> cases mpv <;> simp [compress_zipWith, compress_map]
+
+theorem keepFlags_compress (A : List Bool) (poro : Arr α) (ntg mpv : Option (Arr α)) (act : Arr Int) :
+    keepFlags (compress A poro) (ntg.map (compress A)) (mpv.map (compress A)) (compress A act) =
+      compress A (keepFlags poro ntg mpv act) := by
+  simp only [keepFlags, porvData_compress, compress_zipWith]
+
+theorem porvData_length (n : Nat) (poro : Arr α) (ntg mpv : Option (Arr α)) (hp : poro.length = n)
+    (hn : ∀ x, ntg = some x → x.length = n) (hm : ∀ x, mpv = some x → x.length = n) :
+    (porvData poro ntg mpv).length = n := by
+  unfold porvData
+  cases ntg with
+  | none =>
+    cases mpv with
+    | none => simp [hp]
+    | some m => simp [hp, hm m rfl]
+  | some t =>
+    cases mpv with
+    | none => simp [hp, hn t rfl]
+    | some m => simp [hp, hn t rfl, hm m rfl]
+
+theorem smap_smap {β γ δ : Type} (f : γ → δ) (g : β → γ) (st : List (String × β)) :
+    smap f (smap g st) = smap (fun x => f (g x)) st := by
+  simp [smap, List.map_map, Function.comp_def]
+
+theorem smap_congr {β γ : Type} (f g : β → γ) (st : List (String × β)) (h : ∀ p ∈ st, f p.2 = g p.2) :
+    smap f st = smap g st := by
+  simp only [smap]
+  apply List.map_congr_left
+  intro p hp
+  rw [h p hp]
+
+theorem smap_id' {β : Type} (st : List (String × β)) : smap (fun x => x) st = st := by
+  simp [smap]
+
+theorem shrink_ref {β : Type} (keep : List Bool) : (shrink .ref keep : List β → List β) = fun x => x := by
+  funext x; rfl
+
+theorem resetActnum_refines (D : Dims) (s : St α) (hw : WF D s) :
+    cSt (resetActnum .ref D s) = resetActnum .impl D (cSt s) ∧ WF D (resetActnum .ref D s) := by
+  unfold resetActnum
+  rw [cSt_dbls_get]
+  cases hp : sget s.dbls "PORO" with
+  | none => exact ⟨rfl, hw⟩
+  | some poro =>
+    have hlp := wfstore_sget hw.dbls hp
+    simp only [Option.map_some, cSt_dbls_get]
+    obtain ⟨hw1, hl1⟩ := getI_wf D s "ACTNUM" (some 1) hw
+    have ha1 := getI_act .ref D s "ACTNUM" (some 1)
+    have hg := getI_impl D s "ACTNUM" (some 1) hw
+    generalize getI .ref D s "ACTNUM" (some 1) = p at *
+    rw [hg]
+    simp only []
+    rw [keepFlags_compress]
+    have hkl : (keepFlags poro (sget s.dbls "NTG") (sget s.dbls "MULTPV") p.2).length = s.act.length := by
+      unfold keepFlags
+      rw [List.length_zipWith, porvData_length D.size poro _ _ hlp
+        (fun x hx => wfstore_sget hw.dbls hx) (fun x hx => wfstore_sget hw.dbls hx), hl1, hw.act]
+      simp
+    generalize keepFlags poro (sget s.dbls "NTG") (sget s.dbls "MULTPV") p.2 = keep at *
+    have hact : (cSt s).act = s.act := rfl
+    constructor
+    · simp only [cSt, newAct, shrink, hact, expand_compress_false s.act keep hkl, smap_smap, smap_id', ha1]
+      congr 1
+      · apply smap_congr
+        intro q hq
+        exact (compress_compress s.act keep q.2 hkl (by rw [hw1.ints q hq, hw.act])).symm
+      · apply smap_congr
+        intro q hq
+        exact (compress_compress s.act keep q.2 hkl (by rw [hw1.dbls q hq, hw.act])).symm
+    · refine ⟨?_, ?_, ?_⟩
+      · simp only [newAct]
+        rw [andMask_length _ _ hkl, hw.act]
+      · show WFStore D.size (smap (shrink .ref keep) p.1.ints)
+        rw [shrink_ref, smap_id']
+        exact hw1.ints
+      · show WFStore D.size (smap (shrink .ref keep) p.1.dbls)
+        rw [shrink_ref, smap_id']
+        exact hw1.dbls
+
+theorem runProg_refines (D : Dims) (hD : DPos D) (T : Tables α) (s0 : St α) (hw : WF D s0) (P : Prog α) :
+    (runProg .ref D T s0 P).map cSt = runProg .impl D T (cSt s0) P ∧
+    ∀ q, runProg .ref D T s0 P = some q → WF D q := by
+  unfold runProg
+  obtain ⟨g1, g2⟩ := scanSection_refines D hD T .grid s0 hw P.grid
+  rw [← g1]
+  cases h1 : scanSection .ref D T .grid s0 P.grid with
+  | none => simp
+  | some s1 =>
+    have w1 := g2 s1 h1
+    simp only [Option.map_some]
+    obtain ⟨e1, e2⟩ := scanSection_refines D hD T .edit s1 w1 P.edit
+    rw [← e1]
+    cases h2 : scanSection .ref D T .edit s1 P.edit with
+    | none => simp
+    | some s2 =>
+      have w2 := e2 s2 h2
+      simp only [Option.map_some]
+      obtain ⟨a1, a2⟩ := resetActnum_refines D s2 w2
+      rw [← a1]
+      obtain ⟨r1, r2⟩ := scanSection_refines D hD T .regions _ a2 P.regions
+      rw [← r1]
+      cases h3 : scanSection .ref D T .regions (resetActnum .ref D s2) P.regions with
+      | none => simp
+      | some s3 =>
+        have w3 := r2 s3 h3
+        simp only [Option.map_some]
+        obtain ⟨p1, p2⟩ := scanSection_refines D hD T .props s3 w3 P.props
+        rw [← p1]
+        cases h4 : scanSection .ref D T .props s3 P.props with
+        | none => simp
+        | some s4 =>
+          have w4 := p2 s4 h4
+          simp only [Option.map_some]
+          exact scanSection_refines D hD T .solution s4 w4 P.solution
+
+
+theorem expand_compress {β : Type} (fill : β) (A : List Bool) (y : List β) (hy : y.length = A.length) :
+    expand fill A (compress A y) = maskFill fill A y := by
+  induction A generalizing y with
+  | nil => simp [expand, maskFill]
+  | cons a as ih =>
+    cases y with
+    | nil => simp at hy
+    | cons y0 ys =>
+      simp at hy
+      cases a
+      · simp [expand, compress, maskFill, ih ys hy]
+      · simp [expand, compress, maskFill, ih ys hy]
+
+theorem observeD_refines (D : Dims) (T : Tables α) (s : St α) (hw : WF D s) (kw : String) :
+    observeD .ref D T s kw = observeD .impl D T (cSt s) kw := by
+  unfold observeD
+  cases hd : sget T.dbl kw with
+  | none => rfl
+  | some info =>
+    simp only []
+    obtain ⟨_, hl1⟩ := getD_wf D s kw info hw
+    rw [getD_impl D s kw info hw]
+    simp only []
+    have hact : (cSt s).act = s.act := rfl
+    rw [hact, validArr_impl s.act _ (by rw [hl1, hw.act])]
+    simp only [activeView, globalView, ← compress_map]
+    rw [expand_compress _ _ _ (by simp [hl1, hw.act])]
+
+theorem observeI_refines (D : Dims) (T : Tables α) (s : St α) (hw : WF D s) (kw : String) :
+    observeI .ref D T s kw = observeI .impl D T (cSt s) kw := by
+  unfold observeI
+  cases hd : sget T.int kw with
+  | none => rfl
+  | some init =>
+    simp only []
+    obtain ⟨_, hl1⟩ := getI_wf D s kw init hw
+    rw [getI_impl D s kw init hw]
+    simp only []
+    have hact : (cSt s).act = s.act := rfl
+    rw [hact, validArr_impl s.act _ (by rw [hl1, hw.act])]
+    simp only [activeView, globalView, ← compress_map]
+    rw [expand_compress _ _ _ (by simp [hl1, hw.act])]
+
+theorem observe_refines (D : Dims) (T : Tables α) (s : St α) (hw : WF D s) :
+    observe .ref D T s = observe .impl D T (cSt s) := by
+  unfold observe
+  have hact : (cSt s).act = s.act := rfl
+  rw [hact]
+  congr 1
+  · apply List.map_congr_left
+    intro p _
+    rw [observeD_refines D T s hw]
+  · apply List.map_congr_left
+    intro p _
+    rw [observeI_refines D T s hw]
+
+/-- **The observable result of every deck is the same under both semantics.** -/
+theorem runObserve_refines (D : Dims) (hD : DPos D) (T : Tables α) (A : List Bool) (hA : A.length = D.size)
+    (P : Prog α) : runObserve .ref D T A P = runObserve .impl D T A P := by
+  unfold runObserve
+  have hw : WF D (initSt A : St α) :=
+    ⟨hA, (fun p hp => by simp [initSt] at hp), (fun p hp => by simp [initSt] at hp)⟩
+  obtain ⟨h1, h2⟩ := runProg_refines D hD T (initSt A) hw P
+  have hc : cSt (initSt A : St α) = initSt A := rfl
+  rw [hc] at h1
+  rw [← h1]
+  cases hr : runProg .ref D T (initSt A) P with
+  | none => rfl
+  | some s =>
+    simp only [Option.map_some]
+    rw [observe_refines D T s (h2 s hr)]
+
+
+end Programs
+
+/-! ## independence of inactive cells (one operation) -/
+
+section Indep
+variable {α : Type} [Scalar α]
+
+/-- the value the reference operation leaves in a cell does not mention the ACTNUM -/
+theorem refApply_value (K : Kernel α) (A : List Bool) (sel : Nat → Option Nat) (src tgt y : Arr α)
+    (h : refApply K A sel src tgt = some y) : y = tgt.mapIdx (refUpd K sel src) := by
+  unfold refApply at h
+  split at h
+  · cases h
+  · cases h; rfl
+
+/-- Two runs of the same operation on the same global contents under two different ACTNUMs
+leave the same content in every cell that is active in both (whenever both are accepted). -/
+theorem indep_one_op (K : Kernel α) (A A' : List Bool) (sel : Nat → Option Nat) (L L' : List Idx)
+    (hs : IdxSpec A sel L) (hs' : IdxSpec A' sel L') (src tgt : Arr α)
+    (hsrc : src.length = A.length) (htgt : tgt.length = A.length) (hAA : A'.length = A.length)
+    (y y' : Arr α)
+    (hy : implApply K L (compress A src) (compress A tgt) = some y)
+    (hy' : implApply K L' (compress A' src) (compress A' tgt) = some y')
+    (g : Nat) (hg : isActive A g = true) (hg' : isActive A' g = true) :
+    y[rank A g]? = y'[rank A' g]? := by
+  have r1 := apply_refines K A sel L hs src tgt hsrc htgt
+  have r2 := apply_refines K A' sel L' hs' src tgt (by rw [hsrc, hAA]) (by rw [htgt, hAA])
+  rw [hy] at r1
+  rw [hy'] at r2
+  cases h1 : refApply K A sel src tgt with
+  | none => rw [h1] at r1; cases r1
+  | some z =>
+    cases h2 : refApply K A' sel src tgt with
+    | none => rw [h2] at r2; cases r2
+    | some z' =>
+      rw [h1] at r1
+      rw [h2] at r2
+      simp only [Option.map_some, Option.some.injEq] at r1 r2
+      have e1 := refApply_value K A sel src tgt z h1
+      have e2 := refApply_value K A' sel src tgt z' h2
+      have hz : z' = z := by rw [e1, e2]
+      subst hz
+      have hzl : z'.length = A.length := by rw [e2]; simp [htgt]
+      rw [← r1, ← r2, getElem?_compress_rank A z' g hzl hg,
+        getElem?_compress_rank A' z' g (by rw [hzl, hAA]) hg']
+
+end Indep
+
+/-! ## the documented semantics, as the kernels have it -/
+
+section Pinned
+variable {α : Type} [Scalar α]
+
+/-- an operation whose kernel flags an indexed cell is rejected as a whole -/
+theorem implApply_rejects (K : Kernel α) (L : List Idx) (src tgt : Arr α) (e : Idx) (he : e ∈ L)
+    (hb : K.bad e.d (cellAt src e.a) (cellAt tgt e.a) = true) : implApply K L src tgt = none := by
+  unfold implApply
+  rw [if_pos]
+  exact List.any_eq_true.mpr ⟨e, he, hb⟩
+
+theorem scalar_bad_uninit (op : ScalarOp) (hop : op ≠ .equal) (x : α) (d : Nat) (s t : Cell α)
+    (ht : t.st.hasValue = false) : (scalarKernel op x).bad d s t = true := by
+  cases op <;> simp_all [scalarKernel]
+
+theorem equals_never_bad (x : α) (d : Nat) (s t : Cell α) : (scalarKernel .equal x).bad d s t = false := rfl
+
+theorem equals_sets_deck_value (x : α) (d : Nat) (s t : Cell α) :
+    (scalarKernel .equal x).upd d s t = ⟨.deckValue, x⟩ := rfl
+
+theorem minvalue_clamps (x : α) (d : Nat) (s t : Cell α) (ht : t.st.hasValue = true) :
+    (scalarKernel .min x).upd d s t = ⟨t.st, stdMax t.v x⟩ := by
+  simp [scalarKernel, ht]
+
+theorem maxvalue_clamps (x : α) (d : Nat) (s t : Cell α) (ht : t.st.hasValue = true) :
+    (scalarKernel .max x).upd d s t = ⟨t.st, stdMin t.v x⟩ := by
+  simp [scalarKernel, ht]
+
+theorem minmax_skip_uninit (op : ScalarOp) (x : α) (d : Nat) (s t : Cell α)
+    (ht : t.st.hasValue = false) (hop : op ≠ .equal) : (scalarKernel op x).upd d s t = t := by
+  cases op <;> simp_all [scalarKernel]
+
+theorem deck_default_fills_only_uninit (deck : Arr α) (d : Nat) (s t : Cell α)
+    (hd : (cellAt deck d).st = .validDefault) :
+    (assignKernel deck).upd d s t = if t.st = .uninit then cellAt deck d else t := by
+  simp [assignKernel, hd, Status.hasValue]
+
+theorem deck_value_overwrites (deck : Arr α) (d : Nat) (s t : Cell α)
+    (hd : (cellAt deck d).st = .deckValue) : (assignKernel deck).upd d s t = cellAt deck d := by
+  simp [assignKernel, hd, Status.hasValue]
+
+theorem empty_default_ignored (deck : Arr α) (d : Nat) (s t : Cell α)
+    (hd : (cellAt deck d).st = .emptyDefault) : (assignKernel deck).upd d s t = t := by
+  simp [assignKernel, hd, Status.hasValue]
+
+end Pinned
+
+
 end OpmVerif.FieldProps
